@@ -120,8 +120,10 @@ func v13bOpen(eng *v13bEngine) *Store {
 }
 
 // v13bCommit writes commit k (0..maxAct valid actions on distinct slots
-// applied to *st) on top of parent through the real Store.Put.
-func v13bCommit(ctx context.Context, w *Store, u *vUniverse, st *vState, k int, parent ksuid.KSUID, minAct, maxAct int) ksuid.KSUID {
+// applied to *st) on top of parent through the real Store.Put.  With sorted,
+// the actions are on increasing slots (one representative per set of actions
+// instead of every order).
+func v13bCommit(ctx context.Context, w *Store, u *vUniverse, st *vState, k int, parent ksuid.KSUID, minAct, maxAct int, sorted bool) ksuid.KSUID {
 	id := vCommitID(k)
 	o := &Object{Commit: id, Parent: parent}
 	o.append(&Commit{ID: id, Parent: parent, Author: "a", Message: "m", Meta: zed.Null})
@@ -131,6 +133,11 @@ func v13bCommit(ctx context.Context, w *Store, u *vUniverse, st *vState, k int, 
 	for j := 0; j < na; j++ {
 		a := verif.Choose(name+"["+strconv.Itoa(j)+"]", vNObj+vNVec)
 		verif.Assume(!used[a])
+		if sorted {
+			for b := a + 1; b < len(used); b++ {
+				verif.Assume(!used[b])
+			}
+		}
 		used[a] = true
 		act := u.step(st, a)
 		// as the constructors of commits.Object do: every action names its commit
@@ -163,7 +170,7 @@ func v13bSnapshotIs(ctx context.Context, s *Store, u *vUniverse, id ksuid.KSUID,
 // v13bPersisted: X <- [M <-] Y written by a writer handle; handle 1 reads X
 // (persisting X.snap.zng); handle 2 (cold) reads Y and X in either order;
 // handle 3 (cold) reads both again from what handle 2 persisted.
-func v13bPersisted(maxX, maxY, maxMid int, withRoot bool) {
+func v13bPersisted(maxX, maxY, maxMid int, withRoot, sorted bool) {
 	ctx := context.Background()
 	u := vNewUniverse()
 	eng := &v13bEngine{files: map[string][]byte{}}
@@ -175,19 +182,19 @@ func v13bPersisted(maxX, maxY, maxMid int, withRoot bool) {
 	parent := ksuid.Nil
 	if withRoot && verif.Choose("root", 2) == 1 {
 		// X is not the first commit of the branch
-		parent = v13bCommit(ctx, w, u, &st, k, parent, 1, 1)
+		parent = v13bCommit(ctx, w, u, &st, k, parent, 1, 1, sorted)
 		k++
 	}
-	x := v13bCommit(ctx, w, u, &st, k, parent, 0, maxX)
+	x := v13bCommit(ctx, w, u, &st, k, parent, 0, maxX, sorted)
 	k++
 	xst := st
 	tip := x
 	mids := verif.Choose("mids", maxMid+1) // commits strictly between X and Y
 	for i := 0; i < mids; i++ {
-		tip = v13bCommit(ctx, w, u, &st, k, tip, 1, 1)
+		tip = v13bCommit(ctx, w, u, &st, k, tip, 1, 1, sorted)
 		k++
 	}
-	y := v13bCommit(ctx, w, u, &st, k, tip, 0, maxY)
+	y := v13bCommit(ctx, w, u, &st, k, tip, 0, maxY, sorted)
 	yst := st
 	xSnapName := x.String() + ".snap.zng"
 	ySnapName := y.String() + ".snap.zng"
@@ -252,18 +259,24 @@ func v13bPersisted(maxX, maxY, maxMid int, withRoot bool) {
 }
 
 // verif:desc C13-O3 persisted snapshot isolation: commit chain X <- [M <-] Y written with the real commits.Store.Put (Object.Serialize) to a model object store that keeps the bytes; handle 1 (fresh Store) computes Snapshot(X), the real putSnapshot persists X.snap.zng; handle 2 (fresh Store, cold LRUs, same storage) computes Snapshot(Y) - finding X's persisted snapshot through the real getSnapshot/decodeSnapshot and replaying Y's chain (Store.Get/DecodeObject from storage) on a Copy of it - and then Snapshot(X), or X then Y; handle 1 (X cached) then reads Y; handle 3 (fresh) reads both from what the others persisted. Asserted: every Snapshot(c) equals the fold of c's own chain (object set, object metadata, vectors) - in particular X's never contains Y's changes -, snapshots handed out earlier are unchanged afterwards, repeated calls return equal contents.
-// verif:bounds X = first commit with 0..2 valid actions on distinct slots over 3 objects (symbolic Count) + 1 vector; 0..1 one-action commits between X and Y; Y 0..1 valid action; read order Y-then-X or X-then-Y on handle 2; storage without failures, atomic puts
+// verif:bounds X = first commit with 0..2 valid actions on distinct slots (in increasing slot order) over 3 objects (symbolic Count) + 1 vector; 0..1 one-action commits between X and Y; Y 0..1 valid action; read order Y-then-X or X-then-Y on handle 2; storage without failures, atomic puts
 // verif:outside the serialised form (marshal/unmarshal = byte-token identity model in the engine; the real marshaler runs in the native replay), storage failures and torn snapshot files (C17), LRU eviction, readers concurrent with the writer of the snapshot file, the other goroutine schedule of Store.Get vs getSnapshot
-func VerifH_C13_O3_persisted_snapshot_isolation() { v13bPersisted(2, 1, 1, false) }
+func VerifH_C13_O3_persisted_snapshot_isolation() { v13bPersisted(2, 1, 1, false, true) }
 
-// verif:desc C13-O3 (two actions in Y) as VerifH_C13_O3_persisted_snapshot_isolation with up to 2 actions in Y
-// verif:bounds X 0..2 actions; 0..1 one-action commits between X and Y; Y 0..2 actions; both read orders
+// verif:desc C13-O3 (two actions in Y) as VerifH_C13_O3_persisted_snapshot_isolation with up to 2 actions in Y and the actions of a commit in any order
+// verif:bounds X 0..2 actions (any order); 0..1 one-action commits between X and Y; Y 0..2 actions; both read orders
 // verif:outside as VerifH_C13_O3_persisted_snapshot_isolation
 // verif:tier thorough
-func VerifH_C13_O3_persisted_snapshot_isolation_y2() { v13bPersisted(2, 2, 1, false) }
+func VerifH_C13_O3_persisted_snapshot_isolation_y2() { v13bPersisted(2, 2, 1, false, false) }
 
-// verif:desc C13-O3 (deeper) as VerifH_C13_O3_persisted_snapshot_isolation with an optional commit below X and up to 2 commits between X and Y
-// verif:bounds optional one-action root commit below X; X 0..1 actions; 0..2 one-action commits between X and Y; Y 0..1 actions; both read orders
+// verif:desc C13-O3 (Y three commits above X) as VerifH_C13_O3_persisted_snapshot_isolation with up to 2 commits between X and Y
+// verif:bounds X 0..1 actions; 0..2 one-action commits between X and Y; Y 0..1 actions; both read orders
 // verif:outside as VerifH_C13_O3_persisted_snapshot_isolation
 // verif:tier thorough
-func VerifH_C13_O3_persisted_snapshot_isolation_deep() { v13bPersisted(1, 1, 2, true) }
+func VerifH_C13_O3_persisted_snapshot_isolation_mid2() { v13bPersisted(1, 1, 2, false, false) }
+
+// verif:desc C13-O3 (X not the first commit) as VerifH_C13_O3_persisted_snapshot_isolation with an optional one-action commit below X (X's persisted snapshot is itself a fold of two commits)
+// verif:bounds optional one-action root commit below X; X 0..1 actions; 0..1 one-action commits between X and Y; Y 0..1 actions; both read orders
+// verif:outside as VerifH_C13_O3_persisted_snapshot_isolation
+// verif:tier thorough
+func VerifH_C13_O3_persisted_snapshot_isolation_root() { v13bPersisted(1, 1, 1, true, false) }
